@@ -87,6 +87,8 @@ def outcome(expr, env, long, short, helpers):
 
 def sites(tree, fname):
     helpers = {n.name: n for n in tree.body if isinstance(n, ast.FunctionDef)}
+    module_tuples = {n.targets[0].id: n.value for n in tree.body if isinstance(n, ast.Assign) and len(n.targets) == 1 and isinstance(n.targets[0], ast.Name)
+                     and isinstance(n.value, (ast.Tuple, ast.List))}
     found = []
     consts = lambda node: {n.value for n in ast.walk(node) if isinstance(n, ast.Constant) and isinstance(n.value, str)}
 
@@ -112,8 +114,15 @@ def sites(tree, fname):
             for sub in ast.walk(c):
                 if sub is not c and isinstance(sub, ast.Call):
                     inner.add(id(sub))
-        loops = [n for n in ast.walk(fn) if isinstance(n, ast.For) and isinstance(n.target, ast.Tuple) and len(n.target.elts) == 2
-                 and all(isinstance(x, ast.Name) for x in n.target.elts) and isinstance(n.iter, (ast.Tuple, ast.List))]
+        loops = []
+        for n in ast.walk(fn):
+            if isinstance(n, ast.For) and isinstance(n.target, ast.Tuple) and len(n.target.elts) == 2 and all(isinstance(x, ast.Name) for x in n.target.elts):
+                it = n.iter
+                if isinstance(it, ast.Name) and it.id in module_tuples:
+                    n = ast.For(target=n.target, iter=module_tuples[it.id], body=n.body, orelse=n.orelse, lineno=n.lineno)
+                    it = n.iter
+                if isinstance(it, (ast.Tuple, ast.List)):
+                    loops.append(n)
         in_loop = {id(c): lp for lp in loops for c in ast.walk(lp) if isinstance(c, ast.Call)}
         for c in calls:
             if id(c) in inner:
